@@ -46,6 +46,10 @@ BLOCK_OPTS = [23, 27]
 KNOWN = set(STRING_OPTS + UINT_OPTS + OPAQUE_OPTS + BLOCK_OPTS + [5, 13])
 
 
+UNKNOWN_OPTS = [2, 10, 19, 21, 22, 24, 31, 47, 64, 100, 267, 268, 269, 280, 281, 282, 290, 291, 300, 1000, 2049, 65000,
+                65535, 65535 + 268, 65535 + 269, 65535 + 1000]
+
+
 def gen_option(r):
     kind = r.weighted([(4, "string"), (3, "uint"), (2, "opaque"), (1, "block"), (1, "empty"), (3, "unknown")])
     if kind == "string":
@@ -70,9 +74,8 @@ def gen_option(r):
     elif kind == "empty":
         num, val = 5, b""
     else:
-        num = r.choice([2, 10, 19, 21, 22, 24, 31, 47, 64, 100, 267, 268, 269, 280, 281, 282, 290, 291, 300, 1000, 2049, 65000,
-                        65535, 65535 + 268, 65535 + 269, 65535 + 1000])
-        val = r.randbytes(r.choice([0, 1, 3, 12, 13, 20]))
+        num = r.choice(UNKNOWN_OPTS)
+        val = r.choice([r.randbytes(r.choice([0, 1, 3, 12, 13, 20])), b"\x00" + r.randbytes(r.choice([0, 1, 3]))])
     return [num, val.hex()]
 
 
@@ -256,11 +259,20 @@ def execute(sim, scn):
             decoded.append((len(sim.events), bytes(data), snapshot(m)))
             # the VALUES the application gets, not only their serialisation: text for string options, integers for
             # uint options, (num, more, szx) for block options
-            for o in m.opt.option_list():
+            try:
+                wire_opts = rc.decode(bytes(data))["options"]
+            except rc.FormatError:
+                wire_opts = None
+            for oi, o in enumerate(m.opt.option_list()):
                 num, raw = int(o.number), bytes(o.encode())
                 v = getattr(o, "value", None)
                 exp = None
-                if num in STRING_OPTS:
+                if num in OPAQUE_OPTS or num in UNKNOWN_OPTS:
+                    # opaque options and options the library has no business knowing: the bytes of the datagram, as bytes
+                    # (whatever else in the process may have been told about that number)
+                    if wire_opts is not None and oi < len(wire_opts) and wire_opts[oi][0] == num:
+                        exp = bytes(wire_opts[oi][1])
+                elif num in STRING_OPTS:
                     exp = raw.decode("utf8") if valid_utf8(raw) else None
                 elif num in UINT_OPTS or num in (12, 17):
                     exp = int.from_bytes(raw, "big")
